@@ -25,10 +25,15 @@ var uniformClasses = map[string]Vector{
 	"inf":     {"float": "inf"},
 	"deep":    {"slice": "two", "map": "two", "bytes": "many", "custom": "deep"},
 	"dynint":  {"iface": "int"},
+	// collections nested inside k others are empty (not nil), the enclosing ones hold one element: reaches an
+	// omitempty collection inside a slice element or a map value
+	"empty2": {"emptyFrom": "1"},
+	"empty3": {"emptyFrom": "2"},
+	"empty4": {"emptyFrom": "3"},
 }
 
 // classOrder is the order in which C43 classes are tried and reported.
-var classOrder = []string{"base", "zero", "empty", "max", "min", "unicode", "deep", "dynint", "nonutf8", "nan", "inf"}
+var classOrder = []string{"base", "zero", "empty", "empty2", "empty3", "empty4", "max", "min", "unicode", "deep", "dynint", "nonutf8", "nan", "inf"}
 
 const (
 	strUnicode = "héllo  <>&\x00\"\\世\U0001F600"
@@ -53,7 +58,19 @@ type ContainerMaker func(class string, item func(i int) reflect.Value) reflect.V
 
 // UniformFiller fills every position of a kind with the vector's class.
 func UniformFiller(v Vector) *Filler {
-	return &Filler{Choose: func(kind, _ string) string { return v[kind] }}
+	from, nested := v["emptyFrom"], 0
+	if from != "" {
+		nested = int(from[0] - '0')
+	}
+	return &Filler{Choose: func(kind, path string) string {
+		if from != "" && (kind == "slice" || kind == "map" || kind == "bytes") {
+			if strings.Count(path, "[")+strings.Count(path, "{v") >= nested {
+				return "empty"
+			}
+			return "one"
+		}
+		return v[kind]
+	}}
 }
 
 // Make returns a filled value of type t (addressable).
